@@ -1338,7 +1338,19 @@ fn c02_large_shapes() -> Vec<(&'static str, Vec<u32>, Vec<u32>)> {
     let mut moved = base.clone();
     let block: Vec<u32> = moved.drain(20..40).collect();
     moved.splice(100..100, block);
+    // runs of equal neighbours: a token equal to its neighbours is inserted / removed inside a run
+    let runs: Vec<u32> = (0..140u32).map(|i| if i % 10 < 2 { 5 } else { (i * 7) % 23 }).collect();
+    let mut run_longer = runs.clone();
+    run_longer.insert(61, 5);
+    let mut run_shorter = runs.clone();
+    run_shorter.remove(61);
+    let mut run_both = run_longer.clone();
+    run_both.remove(20);
+    run_both.insert(121, 5);
     vec![
+        ("a run of equal tokens grows by one", runs.clone(), run_longer),
+        ("a run of equal tokens shrinks by one", runs.clone(), run_shorter),
+        ("one run shrinks, two runs grow", runs.clone(), run_both),
         ("identical", base.clone(), base.clone()),
         ("one change, one insert, one removal", base.clone(), edited),
         ("moved block", base.clone(), moved),
@@ -2249,7 +2261,7 @@ fn main() {
         "C05bytes" => (c05_bytes(&mut cases), "[u8] line texts (feature bytes) of 0..=3 lines over {a, b, 0xFF, a 0xFE b}, terminated or not, radius 0/3, header on/off: UnifiedDiff::to_writer keeps every change line's bytes, equals Display on UTF-8, Display is its lossy decoding otherwise"),
         "C06" => (c06(&mut cases), "str: all strings of length 0..=4 over 15 scalars (ASCII, CR, LF, TAB, VT, FF, NUL, NBSP, U+2028, U+3000, U+0085, combining mark, 2- and 4-byte chars) + 4 longer texts; [u8]: all byte strings of length 0..=4 over 13 bytes incl. invalid UTF-8; lines / lines_and_newlines / words / chars; str vs [u8] on the same bytes"),
         "C08" => (c08(&mut cases), "alphabet {0,1,2}, len 0..=4, 6 hook stacks x 2 hook kinds x every failing call index"),
-        "C02" => (c02(&mut cases), "alphabet {0,1,2}, len 0..=5, deadline none/expired, slices + sub-ranges + TextDiff chars; 12 text diffs of 101..260 tokens through the integer-mapping path"),
+        "C02" => (c02(&mut cases), "alphabet {0,1,2}, len 0..=5, deadline none/expired, slices + sub-ranges + TextDiff chars; 15 text diffs of 101..260 tokens through the integer-mapping path"),
         "C03" => (c03(&mut cases), "alphabet {0,1,2} len 0..=6 and alphabet {0,1} len 0..=8, Myers + LCS, raw + captured"),
         "C09" => (c09(&mut cases), "alphabet {0,1,2}, len 0..=6, deadline none/expired"),
         "C10" => (c10(&mut cases), "alphabet {0,1}, len 0..=3, all valid scripts x all carried indices x 3 adapter stacks"),
@@ -2257,7 +2269,7 @@ fn main() {
         "C12" => (c12(&mut cases), "alternating exact op lists up to 8 ops, equal lens {1,2,3,5,8}, 6 change shapes, n 0..=3"),
         "C13" => (c13(&mut cases), "synthetic ops + captured ops for alphabet {0,1,2} len 0..=5 + TextDiff chars"),
         "C05" => (c05(&mut cases), "lines {a,b,c}, 0..=4 lines, optional missing final newline, radius 0..=2"),
-        "C04" | "C17" => (c04(&mut cases), "texts over {a,b,space,newline} len 0..=4, lines/words/chars, iter_all_changes + remapper + utils helpers; 12 line diffs of 101..260 lines (reconstruction through the integer-mapping path)"),
+        "C04" | "C17" => (c04(&mut cases), "texts over {a,b,space,newline} len 0..=4, lines/words/chars, iter_all_changes + remapper + utils helpers; 15 line diffs of 101..260 lines (reconstruction through the integer-mapping path)"),
         _ => {
             eprintln!("usage: replay <C01|C02|C03|C04|C05|C07|C08|C09|C10|C11|C12|C13|C17>");
             std::process::exit(2);
